@@ -424,6 +424,25 @@ func tokens(f []string) string {
 		if r == "ok" {
 			walkTag(f[1], bb.Buf, &toks)
 		}
+	case "col":
+		vals := items(f[2:])
+		if f[1] == "F" {
+			tagFloatTokens(vals, &toks)
+		}
+		var enc []byte
+		if safe(func() string { enc, _ = measure.VerifC11ColumnRoundTrip(vtOf(f[1]), vals); return "ok" }) == "ok" && len(enc) > 0 {
+			inner := enc
+			if f[1] != "S" {
+				if enc[0] != byte(encoding.EncodeTypePlain) {
+					inner = nil
+				} else {
+					inner = enc[1:]
+				}
+			}
+			if len(inner) > 0 {
+				walkTag("S", inner, &toks)
+			}
+		}
 	case "f64":
 		var fs []float64
 		for _, s := range f[1:] {
